@@ -123,6 +123,47 @@ R.contract(
 )
 
 
+# ------------------------------------------------------------------------------------------------- which keywords of a parameter definition constrain the generated data
+PM = "schemathesis.specs.openapi.parameters:"
+# the validation keywords of a Swagger 2.0 non-body parameter (https://swagger.io/specification/v2/#parameter-object) and of an OpenAPI 3.0 Schema Object
+# (https://spec.openapis.org/oas/v3.0.3#schema-object) - written down from the specifications, not from the code
+SWAGGER2_PARAMETER_KEYWORDS = ("type", "format", "items", "maximum", "exclusiveMaximum", "minimum", "exclusiveMinimum", "maxLength", "minLength", "pattern", "maxItems", "minItems",
+                               "uniqueItems", "enum", "multipleOf")
+OPENAPI3_SCHEMA_KEYWORDS = ("multipleOf", "maximum", "exclusiveMaximum", "minimum", "exclusiveMinimum", "maxLength", "minLength", "pattern", "maxItems", "minItems", "uniqueItems",
+                            "maxProperties", "minProperties", "required", "enum", "type", "allOf", "oneOf", "anyOf", "not", "items", "properties", "additionalProperties", "format")
+
+
+class _OneKeyword(D):
+    """A definition carrying ONE arbitrary validation keyword of the given list (plus informative keys that must not reach the generator)."""
+
+    def __init__(self, keywords):
+        self.keywords = keywords
+
+    def make(self, it, name, idx=()):
+        k = it.path.choose([(k, True) for k in self.keywords], "keyword")
+        it.ghost["keyword"] = k
+        return {k: fresh_opaque(it, "KeywordValue"), "description": "informative", "x-vendor": fresh_opaque(it, "Ext")}
+
+
+KEPT = "ghost('keyword') in result and result[ghost('keyword')] is definition_of(open_api_schema)[ghost('keyword')] and 'description' not in result"
+R.spec_funcs["definition_of"] = lambda it, s: s.get("schema", s) if "schema" in s and isinstance(s.get("schema"), dict) else s
+R.contract(
+    PM + "OpenAPIParameter.from_open_api_to_json_schema",
+    variant="swagger2",
+    prop="C01",
+    args={"self": Obj(PM + "OpenAPI20Parameter", definition=Opq("Any")), "operation": Opq("Operation"), "open_api_schema": _OneKeyword(SWAGGER2_PARAMETER_KEYWORDS)},
+    ghost={"keyword": None},
+    ensures={"every_validation_keyword_of_the_parameter_is_kept": KEPT},
+)
+R.contract(
+    PM + "OpenAPI30Parameter.from_open_api_to_json_schema",
+    prop="C01",
+    args={"self": Obj(PM + "OpenAPI30Parameter", definition=Opq("Any")), "operation": Opq("Operation"),
+          "open_api_schema": DictOf(required={"name": Const("p"), "in": Const("query"), "schema": _OneKeyword(OPENAPI3_SCHEMA_KEYWORDS)})},
+    ghost={"keyword": None},
+    ensures={"every_validation_keyword_of_the_schema_is_kept": KEPT},
+)
+
 # ------------------------------------------------------------------------------------------------- parameters -> object schema handed to the generator
 PM = "schemathesis.specs.openapi.parameters:"
 HYP = "schemathesis.specs.openapi._hypothesis:"
